@@ -307,48 +307,6 @@ PROPS["C05"] = dict(
 )
 
 
-# --------------------------------------------------------------------------- C05 timers
-DES_PREPEND = CQ_PREPEND + [dict(file="des/src/lib.rs", text="#![cfg_attr(kani, feature(allocator_api))]")]
-M05 = "time::driver::verif_c05"
-PROPS["C05"] = dict(
-    crate="des",
-    mounts=CQ_MOUNTS + [dict(file="des/src/time/driver.rs", decl="mod verif_c05", harness="c05.rs"),
-                        dict(file="des/src/time/sleep.rs", decl="mod verif_c05_acc", harness="c05_sleep_acc.rs"),
-                        dict(file="des/src/time/interval.rs", decl="mod verif_c05_iacc", harness="c05_interval_acc.rs")],
-    prepend=DES_PREPEND,
-    functions=["des::time::driver::TimerQueue::{new,add,next,bump}", "TimerSlot::{new,add,remove,wake_all}", "TimerSlotEntryHandle::{drop,resolve,reset}", "Driver::{new,set,with_current}",
-               "des::time::Sleep::{new,poll,reset,reset_inner,deadline}", "des::time::Timeout::poll / timeout_at", "des::time::Interval::{poll_tick}, interval_at, MissedTickBehavior::next_timeout"],
-    level_text="Bounded model checking at step level: each operation of the per-module timer queue and each poll of Sleep/Timeout/Interval is executed once from a directly constructed valid state with symbolic deadlines, liveness flags and current time; the oracle states the property for that step (next() = earliest LIVE deadline; bump wakes exactly the due slots, each live timer exactly once; add/reset keep the queue strictly sorted with the timer registered exactly once at its deadline; a dropped timer is unregistered; Sleep completes iff deadline <= now and registers exactly once, also after reset; Timeout prefers the inner result; Interval ticks follow the period and the missed-tick formulas). Composition of steps over whole runs (and the tokio task wake path) is argued from these steps, not solver-checked.",
-    claim="States are built through the private constructors of the queue (child module), empty slots are part of the valid states because TimerSlotEntryHandle::drop and Sleep::reset create them.",
-    assumptions=["Arc::drop_slow -> no-op (TimerSlot<->TimerQueue cycle; destruction not claimed)", "VecDeque::{insert,remove} -> element-swap models (std)", "<= 3 slots, deadlines <= 8 ns, counting RawWaker instead of a tokio task waker",
-                 "Driver::{set,unset,with_current}: thread_local! storage replaced by a static with identical bodies (kani-compiler ICE on TLS destructors); driver installed directly (no ModuleRef::activate)"],
-    outside=["tokio task wake path and LocalSet polling (C06)", "more than 3 slots", "ModuleRef::activate/deactivate glue (needs ModuleContext; see C09 harnesses)", "whole-run composition of the steps"],
-    harnesses=[
-        H(M05, "c05_next_earliest_live", bounds="3 slots, strictly increasing symbolic deadlines<=7ns, symbolic liveness each"),
-        H(M05, "c05_bump_one_slot", tier="experimental", mem=30, bounds="1 slot live/emptied, symbolic deadline<=5, now<=6"),
-        H(M05, "c05_add_one_slot", tier="experimental", mem=30, bounds="1 slot + add at symbolic deadline 0..6 (before/equal/after)"),
-        H(M05, "c05_drop_unregisters", bounds="add at symbolic deadline, resolve-or-not, drop handle"),
-        H(M05, "c05_reset_moves_registration", tier="experimental", mem=30, bounds="add at symbolic deadline 1..6, reset to symbolic 1..6"),
-        H(M05, "c05_sleep_reset_later", tier="experimental", mem=30, bounds="Sleep(deadline 3) polled at symbolic now in {0,1}, reset to 6 (concrete deadlines keep queue positions concrete), polled again"),
-        H(M05, "c05_sleep_reset_earlier", tier="experimental", mem=30, bounds="Sleep(deadline 6) polled at now in {0,1}, reset to 3, polled again"),
-        H(M05, "c05_sleep_first_poll", bounds="Sleep symbolic deadline<=6, now<=4, first poll"),
-        H(M05, "c05_bump_exactly_due", tier="experimental", mem=30, bounds="2 slots (front one live or emptied), symbolic deadlines, symbolic now<=7ns"),
-        H(M05, "c05_add_sorted_once", tier="experimental", mem=30, bounds="2 slots + add at symbolic deadline 0..7 (before/equal/between/after)"),
-        H(M05, "c05_handle_drop_resolve_reset", tier="experimental", mem=30, bounds="1 slot + added timer; symbolic mode drop/resolve/reset(new deadline 1..7)"),
-        H(M05, "c05_sleep_poll", tier="experimental", mem=30, bounds="Sleep with symbolic deadline<=6, now<=4; poll, re-poll, poll at symbolic later now<=7"),
-        H(M05, "c05_sleep_reset_reregisters", tier="experimental", mem=30, bounds="registered Sleep (deadline 2..5, now=1), reset to symbolic 0..7, poll"),
-        H(M05, "c05_timeout_poll", bounds="timeout_at(symbolic deadline<=6, inner ready flag symbolic), now<=4"),
-        H(M05, "c05_interval_tick_period", tier="experimental", mem=30, bounds="interval_at(start<=3, period 1..3), now<=4; two poll_tick calls"),
-        H(M05, "c05_missed_tick_formulas", bounds="scheduled<=1000ns, now in [scheduled,2000], period 1..1000ns; Burst/Delay/Skip"),
-    ],
-)
-
-
-# --------------------------------------------------------------------------- scratch probes (never registered)
-PROPS["P00"] = dict(crate="des-cqueue", mounts=CQ_MOUNTS + [dict(file="des-cqueue/src/stable/mod.rs", decl="mod verif_probe", harness="probe.rs")], prepend=CQ_PREPEND,
-                    level_text="probe", harnesses=[H("stable::verif_probe", "pr_vec_cond_push"), H("stable::verif_probe", "pr_vec_cond_push_stub", unwindset=[REALLOC])])
-
-
 # --------------------------------------------------------------------------- net runtime kernels: C14, C09, C12
 NR_MOUNTS = CQ_MOUNTS + [dict(file="des/src/net/runtime/mod.rs", decl="mod verif_nr", harness="nr.rs"),
                          dict(file="des/src/net/module/mod.rs", decl="pub(crate) mod verif_mod", harness="net_module_stub.rs")]
